@@ -20,13 +20,34 @@ def _c15_received_after_stop(prob, case, flavor):
 
 
 def _c15_respawned_id(prob, case, flavor):
-    return prob.get("kind") in ("orphan", "spawned-child-not-in-children-map", "running-under-stopped-ancestor") and prob.get("id_reused") is True
+    # an unlisted running actor whose id was spawned twice - unless the actor was stopped (by a stopChild, or by the
+    # respawn that replaced it) before its watcher thread had started it: that is F52, whatever the id history
+    return (prob.get("kind") in ("orphan", "spawned-child-not-in-children-map", "running-under-stopped-ancestor")
+            and prob.get("id_reused") is True and not _c15_sync_unstarted(prob, case, flavor))
+
+
+def _respawned_before_start(prob, case):
+    """sync engine, watcher threads scheduled late (`eager` false): the actor's explicit id is spawned twice,
+    non-blocking, inside ONE action list, so the first child was still unstarted when the second spawn stopped and
+    replaced it (`stop()` of an unstarted interpreter is a no-op); its thread starts it afterwards"""
+    if case.get("eager", True) or not prob.get("id_reused"):
+        return False
+    last = str(prob.get("actor", "")).rsplit(":", 1)[-1]
+    for acts in (case.get("cmds") or {}).values():
+        sp = [(a[2], (a[0] == "spawn" and not a[4]) or (a[0] == "spawnChild" and not str(a[1]).startswith("blocking_")))
+              for a in acts if a[0] in ("spawn", "spawnChild")]
+        for i, (eid, lazy) in enumerate(sp):
+            if lazy and eid and eid == last and any(e2 == last for e2, _l in sp[i + 1:]):
+                return True
+    return False
 
 
 def _c15_sync_unstarted(prob, case, flavor):
     if flavor != "sync":
         return False
     k = prob.get("kind")
+    if k in ("orphan", "running-under-stopped-ancestor", "spawned-child-not-in-children-map") and _respawned_before_start(prob, case):
+        return True
     if k == "stop-missed-unstarted-child":
         return True
     if k == "lost" and prob.get("recipient_status_at_send") == "uninitialized":
